@@ -38,7 +38,7 @@ CHECKS = {
         ref='§4 C05'),
     'C06': dict(
         text="Theorems: == is reflexive on every object of a well-formed heap (value comparison with defaults filled in + lockstep sharing walk both succeed); different callable / node kind / Buildable type / argument set / missing argument / sharing on either side each force False. 'Never raises' = totality of the model function, tied by correspondence. Correspondence: generated pairs and triples in both directions; oracle checks symmetry, transitivity, history/dict-order/default insensitivity, congruence with build.",
-        note=TB + 'Partial: symmetry, transitivity and invariance under dict insertion order are not proved (correspondence + oracle only).',
+        note=TB + 'The value comparison is proved symmetric and transitive. Partial: symmetry/transitivity of the sharing walk and invariance under dict insertion order are not proved (correspondence + oracle only).',
         technique='Lean 4 proof over a hand-written executable model, tied to /repo on every run by differential correspondence (compiled Lean driver vs real code on generated inputs) and regenerated source tables; independent Python oracle searches for failing inputs',
         ref='§4 C06'),
     'C07': dict(
@@ -72,8 +72,8 @@ CHECKS = {
         technique='Lean 4 proof over a hand-written executable model, tied to /repo on every run by differential correspondence (compiled Lean driver vs real code on generated inputs) and regenerated source tables; independent Python oracle searches for failing inputs',
         ref='§4 C12'),
     'C13': dict(
-        text="Theorems: for EVERY change list the emitted fiddler equals apply with three coarse phases in diff order (C13_fiddler_is_regrouped_apply); statement by statement it does what the change does; for build_diff's diffs it yields exactly apply_diff's result, i.e. new. Correspondence: the emitted Python SOURCE is parsed back into statements, which must equal the model's emission of the real change list IN ORDER, and executing them in the model must give the real fiddler's result; all naming modes, with and without old.",
-        note=TB + 'Partial: agreement of the three-phase and five-phase orders for diffs in arbitrary change order, and nested targets, are oracle-only. One open finding.',
+        text="Theorems: for EVERY change list in ANY order (no argument both modified and set), whenever the five-phase apply_diff succeeds the emitted fiddler succeeds with exactly the same configuration (C13_fiddler_equals_apply_diff, proved by commuting independent operations); statement by statement it does what the change does; for build_diff's diffs the result is new. Correspondence: the emitted Python SOURCE is parsed back into statements, which must equal the model's emission of the real change list IN ORDER, and executing them in the model must give the real fiddler's result; all naming modes, with and without old.",
+        note=TB + 'Partial: nested targets and new_shared_values are outside the single-node model (oracle only). One open finding.',
         technique='Lean 4 proof over a hand-written executable model, tied to /repo on every run by differential correspondence (compiled Lean driver vs real code on generated inputs) and regenerated source tables; independent Python oracle searches for failing inputs',
         ref='§4 C13'),
     'C14': dict(
